@@ -727,6 +727,20 @@ func (c12) Exec(c Case) [][][]string {
 			if err != nil || terr != nil {
 				break
 			}
+			if len(text)%2 == 0 {
+				// the same condition objects have decided other rows before — every column a text, a bool, NULL, absent: a
+				// condition keeps nothing from the rows it has seen
+				for _, v := range []interface{}{"zz", true, nil, "5", float32(2.5), int8(7)} {
+					prev := map[string]interface{}{}
+					for _, f := range append([]string{"nil", "it"}, c12Fields...) {
+						prev[f] = v
+					}
+					cond.Evaluate(prev)
+					twin.Evaluate(prev)
+				}
+				cond.Evaluate(map[string]interface{}{})
+				twin.Evaluate(map[string]interface{}{})
+			}
 			fr, fok := condition.VerifFastEval(cond, row)
 			ev := cond.Evaluate(row)
 			tw := twin.Evaluate(row)
